@@ -422,6 +422,10 @@ def build_record(case: Dict[str, Any]) -> Any:
             feature.version = dom["version"]
         if dom["kind"] == "pfam" and dom.get("go"):
             feature.gene_ontologies = GOQualifier(dict(dom["go"]))
+        # notes and free (untracked) qualifiers: the generic part of the feature
+        feature.notes.extend(dom.get("notes", []))
+        for key, values in dom.get("fquals", []):
+            feature._qualifiers[key] = list(values)
         rec.add_feature(feature)
         made_domains[dom["n"]] = feature
     for mod in case.get("modules", []):
@@ -433,6 +437,9 @@ def build_record(case: Dict[str, Any]) -> Any:
                         starter=mod["starter"], final=mod["final"], iterative=mod["iterative"])
         for substrate, monomer in mod.get("monomers", []):
             module.add_monomer(substrate, monomer)
+        module.notes.extend(mod.get("notes", []))
+        for key, values in mod.get("fquals", []):
+            module._qualifiers[key] = list(values)
         rec.add_module(module)
     for pre in case.get("prepeptides", []):
         cds = rec.get_cds_by_name(pre["cds"])
@@ -771,6 +778,10 @@ class C10(Property):
                         dom["go"] = rng.sample([["GO:0009055", "electron transfer activity"], ["GO:0016491", "oxidoreductase activity"],
                                                 ["GO:0016020", "membrane: integral"], ["GO:0004871", "signal transducer activity"],
                                                 ["GO:0007165", "signal transduction"]], rng.choice([1, 2, 2, 3]))
+                if dom["kind"] == "pfam" and rng.random() < 0.3:
+                    dom["notes"] = rng.choice([["a pfam note"], ["note b", "note a"]])
+                    if rng.random() < 0.5:
+                        dom["fquals"] = [["inference", ["protein motif:Pfam"]]]
                 case["domains"].append(dom)
                 mine.append(dom)
             asdoms = [d for d in mine if d["kind"] == "asdom"]
@@ -780,6 +791,11 @@ class C10(Property):
                                         "complete": rng.random() < 0.5, "starter": rng.random() < 0.3,
                                         "final": rng.random() < 0.3, "iterative": rng.random() < 0.2,
                                         "monomers": rng.choice([[], [["mal", "ccmal"]], [["ala", "d-ala"], ["gly", "gly"]]])})
+                if rng.random() < 0.35:
+                    # the generic part of a module feature: notes and free qualifiers (D71-C10: they were dropped on reading)
+                    case["modules"][-1]["notes"] = rng.choice([["a module note"], ["note 2", "note 1"]])
+                    if rng.random() < 0.5:
+                        case["modules"][-1]["fquals"] = [["experiment", ["by hand"]], ["zz_free", ["1", "2"]]]
             if asdoms and rng.random() < 0.5:
                 ann["nrps_pks"] = {"type": rng.choice([None, "NRPS", "Type I Modular PKS"]),
                                    "domains": [[rng.choice(["PKS_KS", "PKS_AT", "AMP-binding", "PCP", "Condensation"]), d["ps"], d["pe"],
@@ -968,6 +984,7 @@ class C10(Property):
         yield from self.qualtext_cases(rng, deep)
         yield from self.dom_cases(rng, deep)
         yield from self.annot_cases(rng, deep)
+        yield from self.feat_cases(rng, deep)
         if deep:
             yield from self._precomputed(self.small_scope())
         self.extra_coverage = {"records_generated": count, "worker_processes": WORKERS}
@@ -1490,6 +1507,131 @@ class C10(Property):
         return Judgement(not problems, not bad, in_scope=bool(drv.get("scope")) and known is None, known=known, nontrivial=True,
                          tags=tuple(tags), detail="; ".join(bad + problems)[:1500])
 
+    # ---- whole PFAM_domain / aSModule features through the real classes vs Pfam / ModF (Model/SerialQual, SerialModule)
+    def feat_cases(self, rng: random.Random, deep: bool) -> Iterator[Dict[str, Any]]:
+        terms = [["GO:0009055", "electron transfer activity"], ["GO:0016491", "oxidoreductase activity"], ["GO:0016020", "membrane"]]
+        for i in range(1500 if deep else 240):
+            strand = rng.choice([1, -1])
+            lo = rng.randrange(0, 200)
+            base = {"loc": simple(lo, lo + rng.choice([30, 60]), strand), "notes": rng.sample(["n2", "n1", "a note"], rng.randint(0, 2)),
+                    "quals": rng.sample([["custom", ["x", "y"]], ["zz", ["1"]], ["note", ["stored"]], ["inference", ["i"]]], rng.randint(0, 2))}
+            if i % 2 == 0:
+                p_start = rng.randrange(0, 50)
+                yield dict(base, f="feat", kind="pfam", tool=rng.choice(["cluster_hmmer", "t"]), locus_tag=rng.choice(["ctg1_5", "a"]),
+                           p_start=p_start, p_end=p_start + rng.choice([1, 20]), domain=rng.choice([None, "p450", "a b"]),
+                           domain_id=rng.choice([None, "pfam_ctg1_5_0001"]), database=rng.choice([None, "Pfam-A.hmm 31.0"]),
+                           detection=rng.choice([None, "hmmscan"]), label=rng.choice([None, "L"]), evalue=rng.choice([None, 1.5e-20, 0.0]),
+                           score=rng.choice([None, 12.5, 0.0]), translation=rng.choice(["", "MAGIC"]),
+                           asf=rng.sample(["hit b", "hit a"], rng.randint(0, 2)),
+                           description=rng.choice(["a description", "Cytochrome b(C-terminal)/b6/petD"]),
+                           identifier=rng.choice(["PF00032", "PF00001"]), version=rng.choice([None, 1, 14]),
+                           go=None if rng.random() < 0.4 else rng.sample(terms, rng.choice([1, 2, 3])))
+            else:
+                names = rng.sample(["nrpspksdomains_c0_PKS_KS.1", "nrpspksdomains_c0_PKS_AT.1", "nrpspksdomains_c1_ACP.1",
+                                    "a_domain_name_long_enough_to_be_wrapped_by_the_genbank_writer_of_biopython.1"], rng.choice([1, 2, 3]))
+                yield dict(base, f="feat", kind="module", domains=[{"name": n, "locus": "c1" if "_c1_" in n else "c0", "strand": strand}
+                                                                   for n in names],
+                           type=rng.choice(["nrps", "pks", "unknown", "cal"]), complete=rng.random() < 0.5,
+                           starter=rng.random() < 0.3, final=rng.random() < 0.3, iterative=rng.random() < 0.2)
+
+    @classmethod
+    def observe_feat(cls, case: Dict[str, Any]) -> Dict[str, Any]:
+        from Bio.SeqFeature import SeqFeature
+        from antismash.common.secmet.features import AntismashDomain, Module, PFAMDomain
+        from antismash.common.secmet.locations import FeatureLocation
+        from antismash.common.secmet.qualifiers import GOQualifier
+        location = common.make_location(case["loc"])
+
+        def bio_json(bio: Any) -> Dict[str, Any]:
+            return {"loc": common.location_json(bio.location), "type": bio.type, "quals": qlist(bio.qualifiers)}
+
+        def generic(feature: Any) -> None:
+            feature.notes.extend(case["notes"])
+            for key, values in case["quals"]:
+                feature._qualifiers[key] = list(values)
+        try:
+            if case["kind"] == "pfam":
+                full = case["identifier"] + ("" if case["version"] is None else f".{case['version']}")
+                feature: Any = PFAMDomain(location, case["description"], FeatureLocation(case["p_start"], case["p_end"]), full,
+                                          case["tool"], case["locus_tag"], domain=case["domain"])
+                for name in ("domain_id", "database", "detection", "label"):
+                    setattr(feature, name, case[name])
+                if case["evalue"] is not None:
+                    feature.evalue = case["evalue"]
+                if case["score"] is not None:
+                    feature.score = case["score"]
+                if case["translation"]:
+                    feature.translation = case["translation"]
+                for hit in case["asf"]:
+                    feature.asf.add(hit)
+                if case["go"] is not None:
+                    feature.gene_ontologies = GOQualifier({k: v for k, v in case["go"]})
+                generic(feature)
+
+                def dump(dom: Any) -> Dict[str, Any]:
+                    return {"d": {k: v for k, v in cls._dump_dom(dom).items() if not k.startswith("@")},
+                            "x": {"description": dom.description, "identifier": dom.identifier, "version": dom.version,
+                                  "go": None if dom.gene_ontologies is None else [[k, v] for k, v in dom.gene_ontologies.go_entries.items()]}}
+                read = PFAMDomain.from_biopython
+            else:
+                doms = []
+                for d in case["domains"]:
+                    dom = AntismashDomain(FeatureLocation(0, 9, d["strand"]), "nrps_pks_domains_x", FeatureLocation(0, 3), d["locus"])
+                    dom.domain_id = d["name"]
+                    doms.append(dom)
+                by_name = {d.domain_id: d for d in doms}
+
+                class _Record:
+                    @staticmethod
+                    def get_domain_by_name(name: str) -> Any:
+                        return by_name[name]
+                feature = Module(location, doms, module_type=Module.types.from_string(case["type"]), complete=case["complete"],
+                                 starter=case["starter"], final=case["final"], iterative=case["iterative"])
+                generic(feature)
+
+                def dump(mod: Any) -> Dict[str, Any]:
+                    return {"feat": dump_feat(mod), "domains": [d.domain_id for d in mod.domains], "type": str(mod.module_type),
+                            "complete": mod.is_complete(), "starter": mod.is_starter_module(), "final": mod.is_final_module(),
+                            "iterative": mod.is_iterative()}
+
+                def read(bio: Any) -> Any:
+                    return Module.from_biopython(bio, record=_Record())
+            state = dump(feature)
+            bio = feature.to_biopython()[0]
+        except Exception as exc:  # pylint: disable=broad-except
+            return {"err": err_kind(exc), "msg": str(exc)[:200]}
+        out = {"state": state, "bio": bio_json(bio)}
+        try:
+            back = read(SeqFeature(bio.location, type=bio.type, qualifiers={k: (None if v is None else list(v)) for k, v in bio.qualifiers.items()}))
+            out["back"] = {"ok": dump(back)}
+            out["again"] = bio_json(back.to_biopython()[0])
+        except Exception as exc:  # pylint: disable=broad-except
+            out["back"] = {"err": err_kind(exc), "msg": str(exc)[:200]}
+        return out
+
+    def judge_feat(self, case: Dict[str, Any], obs: Dict[str, Any], drv: Dict[str, Any]) -> Judgement:
+        tags = ["feat:" + case["kind"]]
+        if "err" in obs:
+            return Judgement(True, True, in_scope=False, tags=tuple(tags + ["not-built:" + obs["err"]]))
+
+        def bio_of(d: Dict[str, Any]) -> Any:
+            return [{k: v for k, v in b.items() if k != "ls"} for b in d["ok"]] if "ok" in d else d
+        real_back = {"ok": obs["back"]["ok"]} if "ok" in obs["back"] else {"err": obs["back"]["err"]}
+        problems = []
+        if bio_of(drv["bio"]) != [obs["bio"]]:
+            problems.append(f"written: model {drv['bio']} vs implementation {obs['bio']}")
+        if drv["back"] != real_back:
+            problems.append(f"re-read: model {drv['back']} vs implementation {real_back}")
+        if "again" in obs and bio_of(drv["again"]) != [obs["again"]]:
+            problems.append(f"second write: model {drv['again']} vs implementation {obs['again']}")
+        bad = []
+        if "err" in obs["back"]:
+            bad.append(f"re-reading raised {obs['back']['err']}: {obs['back'].get('msg')}")
+        elif obs["again"] != obs["bio"]:
+            bad.append("the second write differs from the first")
+        return Judgement(not problems, not bad, in_scope=bool(drv.get("scope", True)), nontrivial=True, tags=tuple(tags),
+                         detail="; ".join(bad + problems)[:1500])
+
     def _precomputed(self, cases: Iterator[Dict[str, Any]]) -> Iterator[Dict[str, Any]]:
         """runs the real round trips of a chunk of cases in worker processes (the implementation side is
         pure per case); `run_impl` then finds the observation in the cache"""
@@ -1546,6 +1688,8 @@ class C10(Property):
             return self.observe_dom(case)
         if case["f"] == "annot":
             return self.observe_annot(case)
+        if case["f"] == "feat":
+            return self.observe_feat(case)
         try:
             rec = build_record(case)
         except Exception as exc:  # pylint: disable=broad-except
@@ -1603,6 +1747,12 @@ class C10(Property):
     def driver_line(self, case: Dict[str, Any], obs: Dict[str, Any]) -> Optional[Dict[str, Any]]:
         if case["f"] == "prepeptide":
             return dict(case, re=obs.get("re"))
+        if case["f"] == "feat":
+            if "state" not in obs:
+                return None
+            if case["kind"] == "pfam":
+                return {"f": "feat", "kind": "pfam", "d": obs["state"]["d"], "x": obs["state"]["x"]}
+            return dict({k: v for k, v in obs["state"].items() if k != "domains"}, f="feat", kind="module", domains=case["domains"])
         if case["f"] == "annot":
             if "state" not in obs:
                 return None
@@ -1690,6 +1840,8 @@ class C10(Property):
         if case["f"] == "qualtext":
             assert drv is not None
             return self.judge_qualtext(case, obs, drv)
+        if case["f"] == "feat":
+            return self.judge_feat(case, obs, drv or {})
         if case["f"] == "annot":
             return self.judge_annot(case, obs, drv or {})
         if case["f"] == "dom":
